@@ -158,8 +158,20 @@ def shrink(s: str, pred) -> str:
     return cur
 
 
+CAP = 3
+_REPORTED: dict[str, int] = {}
+
+
 def report(ck: Ck, s: str, ml: bool, why: str, ctx: dict | None = None) -> None:
     ctx = ctx or {}
+    # at most CAP shrunk replays per class of failure (kind of failure x mode x how it was embedded): a fault that breaks
+    # thousands of random strings must not produce thousands of replays (each one is shrunk, which costs oracle runs)
+    cls0 = (why.split(' ')[0] if why.startswith(('raw-', 'linebreak', 'dangling')) else 'roundtrip') + ('-multi' if ml else '-single') \
+        + ('-kvparse' if ctx.get('kv') else '-embedded' if ctx else '')
+    _REPORTED[cls0] = _REPORTED.get(cls0, 0) + 1
+    if _REPORTED[cls0] > CAP:
+        ck.count('search_failures_beyond_cap')
+        return
     kw = {k: ctx[k] for k in ('pre', 'post', 'cut', 'bits') if k in ctx}
     if ctx.get('kv'):
         small = shrink(s, lambda t: kv_oracle(t, ml) is not None)
@@ -257,19 +269,23 @@ def model_counterexamples(ck: Ck) -> None:
     strings over the escape alphabet up to length 3 that do not round-trip.  A witness found by the model is then
     run against the implementation; if it fails there too it is reported as a concrete violation."""
     alpha = U.coq_chars(ord(c) for c in ESC_ALPHA)
-    vals = ck.coq_eval(U.IMPORTS, [f'roundtrip_counterexamples false {alpha} 3', f'roundtrip_counterexamples true {alpha} 3'],
+    runs = '[5; 17; 33; 65; 129; 257]%nat'       # runs of one character: a substitution limited to its first matches fails only there
+    vals = ck.coq_eval(U.IMPORTS, [f'roundtrip_counterexamples false {alpha} 3', f'roundtrip_counterexamples true {alpha} 3',
+                                   f'roundtrip_counterexamples_runs false {alpha} {runs}', f'roundtrip_counterexamples_runs true {alpha} {runs}'],
                        name='modelcex', preamble=U.PRE)
-    n = 2 * sum(len(ESC_ALPHA) ** k for k in range(4))
+    n = 2 * sum(len(ESC_ALPHA) ** k for k in range(4)) + 2 * 6 * len(ESC_ALPHA)
     ck.count('model_roundtrip_small_scope', n)
     if vals is None:
         ck.obligation('instance:escape_text_model_roundtrips_small_scope', False, 'model could not be evaluated')
         ck.tie_broken.append('in-kernel round-trip enumeration could not be evaluated')
         return
-    wit = [(ml, ''.join(map(chr, w))) for ml, v in zip((False, True), vals) for w in parse_coq_nested(v)]
+    wit = [(ml, ''.join(map(chr, w))) for ml, v in zip((False, True), vals[:2]) for w in parse_coq_nested(v)]
+    wit += [(ml, chr(c) * m) for ml, v in zip((False, True), vals[2:]) for c, m in parse_coq_nested(v)]
     ck.obligation('instance:escape_text_model_roundtrips_small_scope', not wit,
                   f'in-kernel enumeration (escape_text pipeline as translated from the source + tokenizer model) of all {n} strings over the '
-                  f'escape alphabet up to length 3 x 2 modes: ' + ('every one tokenizes back to itself' if not wit else
-                  f'{len(wit)} counterexamples, shortest: multiline={wit[0][0]} s={wit[0][1]!r}'))
+                  f'escape alphabet up to length 3 and every run of one of these characters of length 5, 17, 33, 65, 129, 257, x 2 modes: '
+                  + ('every one tokenizes back to itself' if not wit else
+                     f'{len(wit)} counterexamples, shortest: multiline={wit[0][0]} s={wit[0][1][:40]!r}' + (f' (length {len(wit[0][1])})' if len(wit[0][1]) > 40 else '')))
     if wit:
         ck.tie_broken.append('the model of escape_text read from the source does not round-trip')
         ck.extra['model_counterexamples'] = [{'multiline': ml, 's': s} for ml, s in wit[:10]]
@@ -481,6 +497,7 @@ def _locate(ck: Ck, sh, alpha) -> str:
 
 # ------------------------------------------------------------------------------------------------ main
 def run(ck: Ck) -> None:
+    _REPORTED.clear()
     ck.rule = ('exhaustive: every string over the 14-character escape alphabet (backslash, quote, apostrophe, CR, LF, TAB, VT, BS, '
                'FF, BEL, ?, /, n, x) up to length 4 (5 thorough) in both modes, non-trivial = length >= 2; every code point '
                '0..0x10FFFF, non-trivial = escape_text changes it; random strings (escape alphabet / ASCII / surrogates / BMP / '
